@@ -19,6 +19,9 @@ RULE = ("exhaustive: every subset A of S_0..S_3 (2^10) x every 1<=m<=n<=3 x the 
         "changed in place and the returned dictionary emptied; every bisc line is judged by the brute-force oracle (sound/complete/"
         "irredundant on the implementation's own output, representation independence); judge/suff/cleanup lines "
         "carry the implementation's output and perturbed variants of it so that every verdict is seen False too; "
+        "auto_bisc: properties 'avoids these 1-2 mesh patterns of length 2' given as functions (3 literal + 7 random, 40 "
+        "thorough), each evaluated once on the implementation, judged by the oracle on S_0..S_8 and compared with the "
+        "Lean model of auto_bisc under the choices of bases[0] that reproduce the answer; "
         "non-trivial: bisc = the output has a learned pattern, mine = some recorded set is non-empty, judge/suff = "
         "the dictionary has a pattern, cleanup = a basis is returned, pcont/mcont = some shading is given; "
         "distinct = distinct op lines")
@@ -27,14 +30,29 @@ ASSUMPTIONS = [
     "CPython's iteration order of a set (`for b in lst0` in rec_w_reduce_pattern_pos) is not modelled: the model "
     "takes the first cell in list order; the canonicalised output is compared, which does not depend on the choice",
     "the dict representation is the plain dict {k: members of length k} for k = 0..max(n, longest member)",
-    "stdout chatter of bisc/mine/clean_up is discarded",
+    "stdout chatter of bisc/mine/clean_up/auto_bisc is discarded",
+    "auto_bisc: which of the bases returned by clean_up the implementation takes (bases[0], CPython set order) is not "
+    "predicted: the model is run under the choice function that makes it return the implementation's answer, if one "
+    "exists (otherwise under 'always the first basis', and the line fails)",
     "clean_up is modelled on dictionaries whose shading lists are duplicate-free (as produced by forb); the "
     "numbering (length, pattern number, shading number) is replaced by the mesh pattern it denotes",
 ]
 PARTIAL = [
-    "auto_bisc (returned description coincides with the property on every permutation up to length 8) - not "
-    "modelled in Lean (its choice bases[0] depends on CPython set order); evaluated by the brute-force oracle on "
-    "four shipped properties in the thorough tier only",
+    "auto_bisc for a property given as a FUNCTION is modelled (Model/C17Auto.lean: autoBisc fuel ch A B, the choice "
+    "`bases[0]` - the only place where CPython's set order decides - is a parameter `ch`) and PROVED for every choice "
+    "function: a returned description has passed both sanity checks up to the final L >= 8, hence avoiding it coincides "
+    "with the property on every permutation of length <= 8 (C17.auto_bisc_returns_checked, auto_bisc_sound, auto_bisc_sound_from, "
+    "auto_bisc_sound_spec with the specification's MeshContains, auto_bisc_returns_permutation_patterns); the only outcomes are such a description or a loop that is still running "
+    "(auto_bisc_function_input_outcomes), more fuel never changes an answer (auto_bisc_fuel_independent), the Python "
+    "loop does not terminate for the always-true property (auto_bisc_true_property_diverges; observed on the "
+    "implementation too).  NOT proved: termination of auto_bisc for properties with a finite mesh-pattern description "
+    "(the model is fuel-bounded; in particular that `ib += 1` / `n += 1; continue` cannot repeat for ever), and that "
+    "CPython's bases[0] is one of the bases of the model's clean_up (the set of bases as sets of mesh patterns does "
+    "not depend on the order of the shadings) - the latter is what the quick-tier stream auto-bisc-functions "
+    "evaluates: the implementation's answer must be returned by the model under SOME choice function (the driver "
+    "searches the choices and prints autoBisc under them)",
+    "auto_bisc for a list, a pair of dictionaries or a file name (the branches that can give up with None) is not "
+    "modelled; the shipped properties (`auto smooth` ...) are judged by the brute-force oracle only, thorough tier",
     "order independence is PROVED for the model (C17.list_order_independence, forb_mine_order_independence, "
     "hitting_order_independence, forb_choice_independence: every execution of forb - any free cell branched on in "
     "any call - on any rearrangement of the input prints the same canonical line); what stays correspondence-only is "
@@ -204,13 +222,16 @@ def _SG(tok):
 def impl(op, a):
     if op == "bisc":
         return impl_bisc(a[0], int(a[1]), pn(a[2]), a[3])
-    if op in ("auto", "autom"):
+    if op in ("auto", "autom", "automodel"):
         # (the oracle judges the implementation's own answer: one evaluation per line and worker process)
-        key = (op,) + tuple(a)
+        # `automodel <patterns> <answer>`: the same call as `autom <patterns>`; the second token is the answer the
+        # implementation gave when the line was generated - only the Lean side reads it (it looks for choices of
+        # `bases[0]` under which the model returns that answer)
+        key = ("autom" if op == "automodel" else op, a[0])
         if key not in _auto_cache:
             if len(_auto_cache) > 32:
                 _auto_cache.clear()
-            _auto_cache[key] = _limited(lambda: _impl(op, a))
+            _auto_cache[key] = _limited(lambda: _impl(key[0], a[:1]))
         return _auto_cache[key]
     used.begin()
     r1 = _impl(op, a)
@@ -465,7 +486,7 @@ def oracle(op, a):
             return None
         k = len(c)
         return fcells({(x, y) for x in range(k + 1) for y in range(k + 1)} - hit(s, c))
-    if op in ("auto", "autom"):
+    if op in ("auto", "autom", "automodel"):
         # "avoiding the returned patterns coincides with the property on every permutation up to length 8"
         out = impl(op, a)
         if out == "ERR:Timeout":
@@ -473,7 +494,7 @@ def oracle(op, a):
         if out == "None" or out.startswith("ERR:"):
             return None
         ms = meshes(pdict(out))
-        if op == "autom":
+        if op in ("autom", "automodel"):
             mp = _mesh_prop(a[0])
             prop = lambda perm: mp(tuple(perm))  # noqa: E731
         else:
@@ -672,6 +693,49 @@ def cleanup_lines(rng, t, o, nmax):
         res.append("suff good %d %s %s %s" % (rng.randrange(0, bm + 2), rng.choice("TF"), t[2], tok))
         res.append("suff bad %d %s %s %s" % (rng.randrange(0, bm + 2), rng.choice("TF"), fseqs(comp), tok))
     return res
+
+
+AUTO_MODEL_SECONDS = 900
+
+
+def _auto_model(line):
+    """one `automodel` line on the Lean driver, in a process of its own (a line takes seconds: the standard path
+    would evaluate the few lines of the stream one after the other in a single driver process)"""
+    import subprocess
+    import core
+    try:
+        p = subprocess.run([core.DRIVER], input=("%s %s\n" % (PROP, line)).encode(), stdout=subprocess.PIPE,
+                           stderr=subprocess.PIPE, timeout=AUTO_MODEL_SECONDS)
+    except subprocess.TimeoutExpired:
+        return "model-timeout(%d s)" % AUTO_MODEL_SECONDS
+    if p.returncode != 0:
+        return "driver-crashed:rc=%s" % p.returncode
+    return p.stdout.decode().rstrip("\n")
+
+
+def auto_stream(ctx, stream, specs):
+    """auto_bisc on properties given as functions: each property is evaluated ONCE on the implementation (and judged by
+    the oracle), the answer is put into the line `automodel <patterns> <answer>` and the Lean model says whether some
+    choice of `bases[0]` makes it return that answer (it prints what it returns under those choices)."""
+    import core
+    import os
+    import sys
+    import time
+    t0 = time.time()
+    pre = ["autom " + sp for sp in specs]
+    res = [r[0] for r in ctx.pool.map(core._eval_chunk, [[l] for l in pre])]
+    t1 = time.time()
+    lines = []
+    for sp, (io, oo, nt) in zip(specs, res):
+        lines.append("automodel %s %s" % (sp, io if (" " not in io and io) else "?"))
+    mos = None
+    if ctx.model_ok and core.driver_available():
+        mos = list(ctx.pool.map(_auto_model, lines))
+    if os.environ.get("VERIF_PROGRESS"):
+        sys.stderr.write("[%6.0fs] stream %-32s %7d lines  impl+oracle %.0fs  model %.0fs\n" % (
+            time.time() - ctx.t0, stream, len(lines), t1 - t0, time.time() - t1))
+    for idx, (line, (io, oo, nt)) in enumerate(zip(lines, res)):
+        ctx.record(stream, line, io, oo, nt, mos[idx] if mos is not None else None, sample=(idx % 4 == 0))
 
 
 def _bisc_out(line):
@@ -889,7 +953,7 @@ def run(ctx):
             cells = [(x, y) for x in range(3) for y in range(3) if rng.random() < rng.choice((0.3, 0.45))]
             ms.append("%s/%s" % (fseq(q), fcells(cells)))
         lines.append("autom " + ";".join(ms))
-    ctx.compare("auto-bisc-functions", lines, use_model=False)
+    auto_stream(ctx, "auto-bisc-functions", [l.split(" ", 1)[1] for l in lines])
     # ---- malformed / outside the stated precondition (model correspondence only)
     lines = []
     for _ in range(60 if not thorough else 400):
